@@ -159,7 +159,10 @@ def expect_compile_error(name, module, needle):
 def negative_module(mod, macro, kind):
     """A program that MUST be rejected at compile time: kind 'nomatch' (no archetype has both components)
     or 'ambiguous' (a OneOf matching two components of one archetype), through the given query macro."""
-    params = "_a: &T0, _b: &T2" if kind == "nomatch" else "_x: &OneOf<T0, T1>"
+    params = {"nomatch": "_a: &T0, _b: &T2", "ambiguous": "_x: &OneOf<T0, T1>",
+              # arity 3, the two members one archetype owns are NOT adjacent in the list (T2 belongs to the other archetype)
+              "ambiguous3": "_x: &OneOf<T0, T2, T1>", "ambiguous3r": "_x: &OneOf<T1, T2, T0>",
+              "ambiguous3p": "_y: &T0, _x: &OneOf<T1, T2, T0>"}[kind]
     out = ["pub mod %s {" % mod, "    #![allow(unused, dead_code)]", "    use gecs::prelude::*;",
            "    pub struct T0(pub u8); pub struct T1(pub u8); pub struct T2(pub u8);",
            "    ecs_world! {", "        ecs_name!(World%s);" % mod.capitalize(),
@@ -203,3 +206,51 @@ def twin_pair(name, path):
     if d[0][2:] == e[0][2:]:
         return 'agree', d[0][2:]
     return 'differ', 'decorated program observes %s, its erased twin %s' % (d[0][2:], e[0][2:])
+
+
+def admission_program(ln, cap):
+    """A real program for one (len, capacity) of the admission kernel: an archetype of a zero-sized
+    component built with_capacity(cap), filled to len through create_within_capacity, then one
+    create_within_capacity and one create (under catch_unwind). Prints what happened."""
+    return """#![allow(unused)]
+use gecs::prelude::*;
+pub struct Z;
+ecs_world! { ecs_archetype!(ArchZ, Z); }
+fn main() {
+    std::panic::set_hook(Box::new(|_| {}));
+    let cap: usize = %d; let len: usize = %d;
+    let mut w = EcsWorld::with_capacity(EcsWorldCapacity { arch_z: cap });
+    for _ in 0..len { assert!(w.create_within_capacity::<ArchZ>((Z,)).is_ok()); }
+    let a = w.archetype::<ArchZ>();
+    println!("STATE len={} cap={}", a.len(), a.capacity());
+    let within_ok = w.create_within_capacity::<ArchZ>((Z,)).is_ok();
+    if within_ok { let e = *w.archetype::<ArchZ>().entities().last().unwrap(); w.destroy(e); }
+    let r = std::panic::catch_unwind(std::panic::AssertUnwindSafe(|| { w.create::<ArchZ>((Z,)); }));
+    println!("RESULT within_ok={} create_panicked={} len_after={}", within_ok, r.is_err(), w.archetype::<ArchZ>().len());
+    std::mem::forget(w);
+}
+""" % (cap, ln)
+
+
+def run_admission(ln, cap):
+    """Returns (ran: bool, deviations: [str], raw output). Specification: create_within_capacity is Ok iff
+    len < capacity; create panics iff len == capacity == 2^24."""
+    root = _crate("admission")
+    with open(os.path.join(root, 'src', 'main.rs'), 'w') as f:
+        f.write(admission_program(ln, cap))
+    rc, out, err = _cargo(root, ['run', '--release'], timeout=1200)
+    m = re.search(r'RESULT within_ok=(\w+) create_panicked=(\w+) len_after=(\d+)', out)
+    st = re.search(r'STATE len=(\d+) cap=(\d+)', out)
+    if not m or not st:
+        return False, [], (out + err)[-600:]
+    dev = []
+    if int(st.group(1)) != ln or int(st.group(2)) != cap:
+        return False, [], 'could not build the state len=%d capacity=%d through the public API: %s' % (ln, cap, st.group(0))
+    if (m.group(1) == 'true') != (ln < cap):
+        dev.append('create_within_capacity at len=%d capacity=%d returned %s' % (ln, cap, 'Ok' if m.group(1) == 'true' else 'Err'))
+    must_panic = (ln == cap == (1 << 24))
+    if (m.group(2) == 'true') != must_panic:
+        dev.append('create at len=%d capacity=%d %s (limit is 16777216 entities)' % (ln, cap, 'panicked' if m.group(2) == 'true' else 'succeeded'))
+    if m.group(2) == 'true' and int(m.group(3)) != ln:
+        dev.append('a refused create changed len from %d to %s' % (ln, m.group(3)))
+    return True, dev, out[-300:]
